@@ -155,6 +155,9 @@ FD == Fld("d", "i:0", "l:9")
 FDS == Fld("d", "s:", "s:dd")
 FDO == Fld("d", "null", "s:dd")
 FZ == Fld("z", "f:0", "f:2.5")
+PX == Fld("x", "f:0", "f:1.5")
+PY == Fld("y", "f:0", "f:2.5")
+PW == Fld("w", "f:0", "f:3.5")
 RecordEdits == [
   identity |-> <<<<FA, FB, FC>>, <<FA, FB, FC>>>>,
   add_optional_field |-> <<<<FA, FB, FC>>, <<FA, FB, FC, FDO>>>>,
@@ -167,7 +170,12 @@ RecordEdits == [
   remove_last_two_fields |-> <<<<FA, FB, FC, FD>>, <<FA, FB>>>>,
   add_first_required_field |-> <<<<FA, FB, FC, FD>>, <<FZ, FA, FB, FC, FD>>>>,
   \* the record is renamed and the old name kept as an alias ("Example: Renaming a Record"): nothing changes for the data
-  rename_with_alias |-> <<<<FA, FB, FC>>, <<FA, FB, FC>>>> ]
+  rename_with_alias |-> <<<<FA, FB, FC>>, <<FA, FB, FC>>>>,
+  \* records of fixed-width fields only ("plain old data"): the runtimes copy vectors, arrays and stream batches of such records
+  \* as raw memory, which is right only when the record has not changed between the versions
+  pod_reorder_fields |-> <<<<PX, PY>>, <<PY, PX>>>>,
+  pod_add_required_field |-> <<<<PX, PY>>, <<PX, PY, PW>>>>,
+  pod_remove_required_field |-> <<<<PX, PY, PW>>, <<PX, PW>>>> ]
 
 Names(fs) == { fs[i].n : i \in 1..Len(fs) }
 ByName(fs, n) == fs[CHOOSE i \in 1..Len(fs) : fs[i].n = n]
